@@ -307,7 +307,7 @@ def distance(s1, s2, only_ub=False, **kwargs):
     length = min(c + 1, abs(r - c) + 2 * (s.window - 1) + 1 + 1 + 1)
     dtw = array.array('d', [inf] * (2 * length))
     sc = 0
-    ec = 0
+    ec = psi_2b  # the first row can start at zero cost in all columns up to psi_2b
     for i in range(min(psi_2b + 1, length)):
         dtw[i] = 0
     skip = 0
@@ -350,7 +350,9 @@ def distance(s1, s2, only_ub=False, **kwargs):
             # print('i={}, j={}, d={}, skip={}, skipp={}'.format(i,j,d,skip,skipp))
             # print(dtw)
             if dtw[i1 * length + j + 1 - skip] > s.adj_max_dist:
-                if not smaller_found:
+                if not smaller_found and i >= psi_1b:
+                    # (while the next row can still start at zero cost in the first column,
+                    # its first columns cannot be skipped)
                     sc = j + 1
                 if j >= ec:
                     break
@@ -444,7 +446,7 @@ def warping_paths(s1, s2, psi_neg=True, keep_int_repr=False, **kwargs):
         dtw[i, 0] = 0
     i1 = 0
     sc = 0
-    ec = 0
+    ec = psi_2b  # the first row can start at zero cost in all columns up to psi_2b
     for i in range(r):
         i0 = i
         i1 = i + 1
@@ -462,7 +464,9 @@ def warping_paths(s1, s2, psi_neg=True, keep_int_repr=False, **kwargs):
                                      dtw[i0, j + 1] + s.adj_penalty,
                                      dtw[i1, j] + s.adj_penalty)
             if dtw[i1, j + 1] > s.adj_max_dist:
-                if not smaller_found:
+                if not smaller_found and i >= psi_1b:
+                    # (while the next row can still start at zero cost in the first column,
+                    # its first columns cannot be skipped)
                     sc = j + 1
                 if j >= ec:
                     break
